@@ -191,5 +191,34 @@ func runC12(o Opts) error {
 		}
 		c12dec(s, bs, class)
 	}
+	// constants of the library's own source: every string literal as a string to encode, alone and repeated / embedded in
+	// digit strings; every byte literal as bytes to decode; few-digit strings (all characters from a 2-3 digit alphabet)
+	d := sourceDict()
+	for _, lit := range d.Strings {
+		if len(lit) <= 24 {
+			c12enc(s, []byte(lit), "enc-source-dictionary")
+			if allDigits(lit) {
+				c12enc(s, []byte(lit+lit+lit+lit), "enc-source-dictionary")
+				c12enc(s, []byte("19"+lit+"73"), "enc-source-dictionary")
+			}
+		}
+	}
+	for _, b := range d.Bytes {
+		c12dec(s, b, "dec-source-dictionary")
+	}
+	for i := 0; i < 200; i++ {
+		alpha := []byte{'0' + byte(rnd.Intn(10)), '0' + byte(rnd.Intn(10)), '0' + byte(rnd.Intn(10))}[:2+rnd.Intn(2)]
+		n := 1 + rnd.Intn(40)
+		in := make([]byte, n)
+		for j := range in {
+			in[j] = alpha[rnd.Intn(len(alpha))]
+		}
+		c12enc(s, in, "enc-few-digits")
+		bs := make([]byte, 1+rnd.Intn(20))
+		for j := range bs {
+			bs[j] = (alpha[rnd.Intn(len(alpha))]-'0')<<4 | (alpha[rnd.Intn(len(alpha))] - '0')
+		}
+		c12dec(s, bs, "dec-few-digits")
+	}
 	return s.Close()
 }
